@@ -18,6 +18,11 @@ func (c *checker) hook(e *sim.Ev) {
 		if old == Leader && nw != Leader {
 			for _, l := range c.leadLog {
 				if l.key == key && !l.ended {
+					how := "stepdown"
+					if nw == Shutdown {
+						how = "shutdown"
+					}
+					c.ext.leaderEnded(c, l, e.T, how)
 					l.ended, l.endT = true, e.T
 				}
 			}
@@ -129,6 +134,7 @@ func (c *checker) becameLeader(s *server, key instKey, term uint64, e *sim.Ev) {
 		c.leaders[term] = rec
 	}
 	c.leadLog = append(c.leadLog, rec)
+	c.ext.reevalMajority(c, e)
 	// C07: a server that is not a voter in its latest configuration is never elected
 	_, lc := s.disk.latestLogCfg()
 	ok := lc == ""
